@@ -26,7 +26,7 @@
 import LccModel.Model.Loader
 import LccModel.Model.LoaderSpec
 import LccModel.Model.Run
-import LccModel.Model.Inject
+import LccModel.Model.SuiteObject
 import LccModel.Model.Deps
 
 namespace LccModel.Expand
@@ -75,7 +75,7 @@ structure ClsHead where
   md : Meta := {}
   disabled : Disabled := .no
   hidden : Bool := false
-  obj : Inject.Obj := {}           -- the attribute layers of the instance `class_()` (instance dict, class dict, base classes)
+  obj : SuiteObj.Obj := {}           -- the attribute layers of the instance `class_()` (instance dict, class dict, base classes)
 
 /-- A `@lcc.suite` class: test methods and nested suite classes. -/
 inductive SuiteDecl where
@@ -110,7 +110,7 @@ structure SuiteHead where
   rank : Nat
   md : Meta := {}
   disabled : Disabled := .no
-  injected : List (String × String) := []      -- `Suite._injected_fixtures`: fixture name ↦ attribute name
+  injected : List (String × List String) := []  -- `Suite._injected_fixtures`: fixture name ↦ the attribute names injecting it
   setupSuite : Option (List String) := none    -- the `setup_suite` hook (its parameters), if the object has one
   teardownSuite : Bool := false
   setupTest : Bool := false
@@ -183,11 +183,11 @@ def subOrder {α : Type} (l : List (Keyed α)) : List (Keyed α) := discover Key
     INSTANCE (whatever layer holds them) -/
 def headOf (h : ClsHead) : SuiteHead :=
   { name := h.suiteName, desc := h.suiteDesc, rank := h.rank, md := h.md, disabled := h.disabled
-    injected := Inject.injectedOf h.obj
-    setupSuite := Inject.hookParams h.obj "setup_suite"
-    teardownSuite := (Inject.hookParams h.obj "teardown_suite").isSome
-    setupTest := (Inject.hookParams h.obj "setup_test").isSome
-    teardownTest := (Inject.hookParams h.obj "teardown_test").isSome }
+    injected := SuiteObj.injectedOf h.obj
+    setupSuite := SuiteObj.hookParams h.obj "setup_suite"
+    teardownSuite := (SuiteObj.hookParams h.obj "teardown_suite").isSome
+    setupTest := (SuiteObj.hookParams h.obj "setup_test").isSome
+    teardownTest := (SuiteObj.hookParams h.obj "teardown_test").isSome }
 
 mutual
 /-- **The suite a class stands for**: its tests are the expansions of its test methods in declaration
@@ -393,7 +393,7 @@ def disabledOf (reason : Option String) : Disabled :=
 
 def mdApply (m : Meta) : Deco → Meta
   | .tags ts => { m with tags := m.tags ++ ts }
-  | .prop k v => { m with props := Inject.dictSet m.props k v }
+  | .prop k v => { m with props := SuiteObj.dictSet m.props k v }
   | .link u n => { m with links := m.links ++ [(u, n)] }
   | _ => m
 
@@ -425,7 +425,7 @@ def applyClsDeco (h : ClsHead) (c : Deco) : ClsHead :=
   | .parametrized _ _ => h
   | c => { h with md := mdApply h.md c }
 
-def decorateCls (attr : String) (rank : Nat) (obj : Inject.Obj) (decos : List Deco) : ClsHead :=
+def decorateCls (attr : String) (rank : Nat) (obj : SuiteObj.Obj) (decos : List Deco) : ClsHead :=
   decos.foldl applyClsDeco { attr := attr, rank := rank, obj := obj }
 
 /-- the arguments of the `depends_on` decorators among `decos` -/
